@@ -44,6 +44,9 @@ func roNames(cls string, n int) []string {
 			if i%2 == 1 {
 				out[i] = fmt.Sprintf("lower_case-name.%03d.Data", i)
 			}
+			if cls == "dotfiles" && i%2 == 0 {
+				out[i] = fmt.Sprintf(".hidden-dot-file-%03d", i)
+			}
 		}
 	}
 	return out
